@@ -3,7 +3,8 @@
   imported (RV32I: NakenVerif.Riscv.Props / RoundTrip, namespace NakenVerif.Riscv):
     Arch.decode_encode, Arch.encode_decode, rv32i_encode_sound, rv32i_encode_sound_defined, rv32i_encode_len,
     rv32i_fixpoint_structured, table_spec_rows, table_spec_names, table_rows_known, table_rt_rows,
-    rv32i_fence_sound, fence_encode
+    rv32i_fence_sound, fence_encode, rv32i_fixpoint_exact, encode_ne_lossy
 -/
 import NakenVerif.Riscv.Props
 import NakenVerif.Riscv.RoundTrip
+import NakenVerif.Riscv.NoLossy
